@@ -11,10 +11,13 @@ observable state with the real collection opened on the surviving object store.
 
 What is proved here:
 
-* `recover_follows_code_order` — the phase order the model's `recover` uses is the order the
-  translator extracts from `Collection::open` (`Gen.CollOrder.recoveryOrder`, `gen_recover_order`);
-  all statements below are about `recoverWith (phasesOfGen Gen.CollOrder.recoveryOrder)`, so an edit of
-  `Collection::open` that swaps the phases breaks them (and `gen_recover_order`).
+* `recover_follows_code_order`, `genCfg_is_code` — the phase order and the replay structure the model's
+  `recover` uses are the ones the translator extracts from `Collection::open` and
+  `reconcile_mutation_intents` (`Gen.CollOrder.recoveryOrder`, `replayTwoGlobalPasses`); the positive
+  statements below are about `genCfg`, so an edit that swaps the phases or fuses the two replay passes
+  breaks them (and `gen_recover_order` / `gen_replay_two_passes`).
+* `fused_replay_breaks_lower_id_taker`, `fused_replay_mirror_direction_still_works`, `rotation_recovers`,
+  `fused_replay_breaks_rotation` — order dependencies BETWEEN documents inside the replay.
 * `handover_recovers` — for the whole family of hand-over histories of the class (`Handover`: the
   unique place is a scalar field, an array element or a multi-field tuple; the holder releases it by
   `remove` or by `update`; the taker is a new document or a document of the last flush; optionally a
@@ -47,9 +50,21 @@ def phasesOfGen : List Nat → List Phase
 theorem recover_follows_code_order : phasesOfGen AndaVerif.Gen.CollOrder.recoveryOrder = codePhases := by
   rw [AndaVerif.Gen.CollOrder.gen_recover_order]; rfl
 
-theorem recover_eq_generated (x : DState) :
-    recoverWith (phasesOfGen AndaVerif.Gen.CollOrder.recoveryOrder) x = recover x := by
-  rw [recover_follows_code_order]; rfl
+/-- the generated structure of `reconcile_mutation_intents` (`Gen.CollOrder.replayTwoGlobalPasses`) as a mode -/
+def modeOfGen (twoPasses : Bool) : ReplayMode := if twoPasses then .twoPass else .fused
+
+/-- the recovery configuration the translator extracts from the code: phase order of `Collection::open` and
+the pass structure of the intent replay -/
+def genCfg : RecCfg :=
+  { phases := phasesOfGen AndaVerif.Gen.CollOrder.recoveryOrder, mode := modeOfGen AndaVerif.Gen.CollOrder.replayTwoGlobalPasses }
+
+/-- … and it is the configuration the model (and the driver) recovers with. -/
+theorem genCfg_is_code : genCfg = codeCfg := by
+  unfold genCfg
+  rw [recover_follows_code_order, AndaVerif.Gen.CollOrder.gen_replay_two_passes]; rfl
+
+theorem recover_eq_generated (x : DState) : recoverWith genCfg x = recover x := by
+  rw [genCfg_is_code]; rfl
 
 -- ------------------------------------------------------------------------------------------------
 -- executable agreement check (what `Agrees` of Proofs/CollFacts.lean says, as a decidable test)
@@ -102,6 +117,9 @@ structure Handover where
   scalarFirst : Bool
   /-- there are also a BM25 and an HNSW index -/
   allFamilies : Bool
+  /-- the holder (the releaser) is the document with the HIGHER id of the two flushed ones, so that a flushed
+  taker has the LOWER id -/
+  holderSecond : Bool
   deriving DecidableEq, Repr
 
 def hSchema : List (Nat × FieldDef) :=
@@ -140,16 +158,19 @@ def setupOps (h : Handover) : List DOp :=
   (if h.scalarFirst then ixs ++ [sc] else sc :: ixs) ++
   (if h.allFamilies then [.op (.createTx [5]), .op (.createHn 6 4)] else []) ++
   -- the open that created the indexes ends with a flush
-  [.op .flush, .op (.add holder), .op (.add other), .op .flush]
+  [.op .flush] ++ (if h.holderSecond then [.op (.add other), .op (.add holder)] else [.op (.add holder), .op (.add other)]) ++ [.op .flush]
 
 /-- holder releases, taker takes, power loss — nothing flushed in between -/
+def holderId (h : Handover) : Nat := if h.holderSecond then 2 else 1
+def otherId (h : Handover) : Nat := if h.holderSecond then 1 else 2
+
 def handoverOps (h : Handover) : List DOp :=
   setupOps h ++
-  [if h.byRemove then .op (.remove 1) else .op (.update 1 (releaseFields h)),
-   if h.takerFlushed then .op (.update 2 (takeFields h)) else .op (.add (taking h 30 2)),
+  [if h.byRemove then .op (.remove (holderId h)) else .op (.update (holderId h) (releaseFields h)),
+   if h.takerFlushed then .op (.update (otherId h) (takeFields h)) else .op (.add (taking h 30 2)),
    .crash]
 
-def takerId (h : Handover) : Nat := if h.takerFlushed then 2 else 3
+def takerId (h : Handover) : Nat := if h.takerFlushed then otherId h else 3
 
 def contestedKey (h : Handover) : Nat × Key :=
   match h.place with
@@ -165,42 +186,93 @@ def ownersOf (s : State) (g : Nat × Key) : List Nat :=
 def allHandovers : List Handover :=
   [Place.scalar, .element, .tuple].flatMap (fun p =>
     [true, false].flatMap (fun r => [true, false].flatMap (fun t => [true, false].flatMap (fun f =>
-      [true, false].map (fun a => ⟨p, r, t, f, a⟩)))))
+      [true, false].flatMap (fun a => [true, false].map (fun hs => ⟨p, r, t, f, a, hs⟩))))))
 
 /-- what the class demands after recovery, as one decidable check -/
-def recoveredOk (phases : List Phase) (h : Handover) : Bool :=
-  let x := drunWith phases (dinit hSchema) (handoverOps h)
+def recoveredOk (cfg : RecCfg) (h : Handover) : Bool :=
+  let x := drunWith cfg (dinit hSchema) (handoverOps h)
   -- every index agrees with the stored documents, unique keys have one owner
   agreesB x.s &&
   -- `Eq(v)` returns exactly the taker
   ownersOf x.s (contestedKey h) == [takerId h] &&
   -- a contender for the value is refused and leaves no trace
-  (let r := dstepWith phases x (.op (.add (taking h 40 3))); r.2 == .err .exists && agreesB r.1.s) &&
+  (let r := dstepWith cfg x (.op (.add (taking h 40 3))); r.2 == .err .exists && agreesB r.1.s) &&
   -- a second reopen (clean or another power loss) shows the same
-  (let y := (dstepWith phases x (.op .reopen)).1; agreesB y.s && ownersOf y.s (contestedKey h) == [takerId h] && sameSet y.s.ids x.s.ids) &&
-  (let y := (dstepWith phases x .crash).1; agreesB y.s && ownersOf y.s (contestedKey h) == [takerId h] && sameSet y.s.ids x.s.ids)
+  (let y := (dstepWith cfg x (.op .reopen)).1; agreesB y.s && ownersOf y.s (contestedKey h) == [takerId h] && sameSet y.s.ids x.s.ids) &&
+  (let y := (dstepWith cfg x .crash).1; agreesB y.s && ownersOf y.s (contestedKey h) == [takerId h] && sameSet y.s.ids x.s.ids)
 
 /-- **Uniqueness and index agreement after crash recovery when a unique value changed hands since the
-last flush** — all 48 members of the class (3 kinds of unique place × release by remove / update ×
-taker new / flushed × registry order × with / without BM25 and HNSW), with the recovery phases in the
-order generated from `Collection::open`. -/
-theorem handover_recovers :
-    allHandovers.all (recoveredOk (phasesOfGen AndaVerif.Gen.CollOrder.recoveryOrder)) = true := by
-  rw [recover_follows_code_order]; decide
+last flush** — all 96 members of the class (3 kinds of unique place × release by remove / update ×
+taker new / flushed × registry order × with / without BM25 and HNSW × releaser has the lower / the HIGHER id
+of the two flushed documents), with the recovery configuration generated from the code: the phase order of
+`Collection::open` and the two-global-passes structure of `reconcile_mutation_intents`. -/
+theorem handover_recovers : allHandovers.all (recoveredOk genCfg) = true := by
+  rw [genCfg_is_code]; decide
 
 /-- … and the class is not vacuous: the value really is held by the flushed document in the loaded
 state and really changes owner. -/
-example : ownersOf (crashLoad (drun (dinit hSchema) ((handoverOps ⟨.scalar, false, false, true, true⟩).dropLast))).s (0, .s 20) = [1] := by decide
-example : ownersOf (drun (dinit hSchema) (handoverOps ⟨.scalar, false, false, true, true⟩)).s (0, .s 20) = [3] := by decide
+example : ownersOf (crashLoad (drun (dinit hSchema) ((handoverOps ⟨.scalar, false, false, true, true, false⟩).dropLast))).s (0, .s 20) = [1] := by decide
+example : ownersOf (drun (dinit hSchema) (handoverOps ⟨.scalar, false, false, true, true, false⟩)).s (0, .s 20) = [3] := by decide
+example : ownersOf (drun (dinit hSchema) (handoverOps ⟨.scalar, false, true, true, true, true⟩)).s (0, .s 20) = [1] := by decide
 
 /-- **The order of the recovery phases is load-bearing.** With the repair scan before the intent replay,
 every member of the class whose taker is a *new* document ends with the taker live but absent from the
 unique index: the scan meets the holder's stale posting, the insert is refused, logged and skipped. -/
 theorem phase_order_matters :
-    (allHandovers.filter (fun h => !h.takerFlushed)).all (fun h => !recoveredOk [.scan, .replay] h) = true := by
+    (allHandovers.filter (fun h => !h.takerFlushed)).all (fun h => !recoveredOk { phases := [.scan, .replay], mode := .twoPass } h) = true := by
   decide
 
-example : ownersOf (drunWith [.scan, .replay] (dinit hSchema) (handoverOps ⟨.scalar, false, false, true, false⟩)).s (0, .s 20) = [] := by decide
+example : ownersOf (drunWith { phases := [.scan, .replay], mode := .twoPass } (dinit hSchema) (handoverOps ⟨.scalar, false, false, true, false, false⟩)).s (0, .s 20) = [] := by decide
+
+def fusedCfg : RecCfg := { phases := codePhases, mode := .fused }
+
+/-- **The two-pass structure of the intent replay is load-bearing.** If the replay handled the documents one
+at a time in ascending id order (un-index this document's own images, re-index it at once), every member of
+the class in which both documents are flushed and the releaser has the HIGHER id (release by `update` or by
+`remove` alike) would end with the lower-id taker live but absent from the unique index: it is re-indexed
+while the stale posting of the not yet processed releaser is still there; the refusal is only logged and the
+open checkpoints the state. -/
+theorem fused_replay_breaks_lower_id_taker :
+    (allHandovers.filter (fun h => h.takerFlushed && h.holderSecond)).all (fun h => !recoveredOk fusedCfg h) = true := by
+  decide
+
+/-- the witness: `Eq(V)` is empty although document 1 is live with `V`, and a contender is accepted -/
+example : ownersOf (drunWith fusedCfg (dinit hSchema) (handoverOps ⟨.scalar, false, true, true, false, true⟩)).s (0, .s 20) = [] := by decide
+example : (dstepWith fusedCfg (drunWith fusedCfg (dinit hSchema) (handoverOps ⟨.scalar, false, true, true, false, true⟩))
+    (.op (.add (taking ⟨.scalar, false, true, true, false, true⟩ 40 3)))).2 = .id 3 := by decide
+
+/-- The mirror direction (the LOWER id releases, the higher id takes) survives a fused replay — which is why a
+one-directional template cannot tell the two structures apart. -/
+theorem fused_replay_mirror_direction_still_works :
+    (allHandovers.filter (fun h => h.takerFlushed && !h.holderSecond)).all (recoveredOk fusedCfg) = true := by
+  decide
+
+-- rotation of a unique value among three flushed documents ------------------------------------------
+
+/-- documents 1, 2, 3 hold `u` = 20, 21, 25; the values rotate (through a temporary value), upwards or
+downwards in id order; nothing is flushed; power loss -/
+def rotationOps (up : Bool) : List DOp :=
+  [.op (.createBt 0 [1]), .op .flush,
+   .op (.add (mkDoc 20 [] 1 .null 0)), .op (.add (mkDoc 21 [] 2 .null 1)), .op (.add (mkDoc 25 [] 3 .null 2)), .op .flush] ++
+  (if up then
+    [.op (.update 1 [(1, .int 40)]), .op (.update 2 [(1, .int 20)]), .op (.update 3 [(1, .int 21)]), .op (.update 1 [(1, .int 25)])]
+   else
+    [.op (.update 3 [(1, .int 40)]), .op (.update 2 [(1, .int 25)]), .op (.update 1 [(1, .int 21)]), .op (.update 3 [(1, .int 20)])]) ++
+  [.crash]
+
+def rotationOk (cfg : RecCfg) (up : Bool) : Bool :=
+  let x := drunWith cfg (dinit hSchema) (rotationOps up)
+  agreesB x.s && (let y := (dstepWith cfg x .crash).1; agreesB y.s) &&
+  ownersOf x.s (0, .s 20) == [if up then 2 else 3]
+
+/-- A rotation A→B→C→A among flushed documents recovers in both directions with the generated
+configuration, and in neither direction with a fused replay (a cycle needs the global un-index pass whatever
+the id order). -/
+theorem rotation_recovers : rotationOk genCfg true = true ∧ rotationOk genCfg false = true := by
+  rw [genCfg_is_code]; decide
+
+theorem fused_replay_breaks_rotation : rotationOk fusedCfg true = false ∧ rotationOk fusedCfg false = false := by
+  decide
 
 /-- A second power loss immediately after recovery changes nothing observable (recovery ends with a
 flush that retires the intents and advances the checkpoint). -/
@@ -233,6 +305,6 @@ def agrees_after_recover_full : Prop :=
   ∀ (schema : List (Nat × FieldDef)) (ops : List DOp), disciplined false (ops ++ [.crash]) = true →
     agreesB (drun (dinit schema) (ops ++ [.crash])).s = true
 
-example : disciplined false (handoverOps ⟨.tuple, true, true, false, true⟩) = true := by decide
+example : disciplined false (handoverOps ⟨.tuple, true, true, false, true, true⟩) = true := by decide
 
 end AndaVerif.Collection.Crash
